@@ -54,6 +54,8 @@ def handle (line : String) : String :=
   | ["tbatch", _] => "batch rt=true"
   | ["ibatch", _] => "batch rt=true"
   | ["bbatch", _] => "batch rt=true"
+  | ["fbatch", _] => "batch rt=true same=true"
+  | ["sbatch", _] => "batch rt=true same=true"
   | ["zz", x] => match x.toNat? with | some n => s!"ok {zigzagEnc n}" | none => "bad-op"
   | ["zzd", x] => match x.toNat? with | some n => s!"ok {zigzagDec n}" | none => "bad-op"
   | ["walgrow", p, n] => match p.toNat?, n.toNat? with
